@@ -137,7 +137,10 @@ Proof.
     + eapply (L_step s _ t x); [exact HL|exact Hx|reflexivity| |];
         intro k0; cbn [klock set_bth]; unfold holdsb; cbn [b_cmd b_pc with_bpc]; rewrite Hc, ?Hp; cbv beta iota; try reflexivity; discriminate.
   - (* move: destination *)
-    destruct (lock_is_free b s) eqn:Hf; [|discriminate]. apply free_none in Hf. inversion Hs; subst s'; clear Hs.
+    destruct (lock_avail b t s) eqn:Hf; [|discriminate]. inversion Hs; subst s'; clear Hs.
+    assert (Hf' : holdsb x b = true \/ nget b (klock s) = None).
+    { unfold lock_avail in Hf. destruct (nget b (klock s)) as [u|] eqn:Eu; [|now right]. left.
+      apply Nat.eqb_eq in Hf. subst u. destruct HL as [L1 _]. destruct (L1 b t Eu) as [x0 [Hx0 Hh0]]. congruence. }
     eapply (L_step s _ t x); [exact HL|exact Hx|reflexivity| |].
     + intro k0. cbn [klock set_bth set_klock set_lists]. unfold holdsb. cbn [b_cmd b_pc with_bpc]. rewrite Hc, Hp. cbv beta iota.
       destruct (Nat.eqb_spec b k0).
@@ -147,7 +150,7 @@ Proof.
         destruct HL as [_ L2]. apply (L2 t x k0 Hx). unfold holdsb. rewrite Hc, Hp. apply Nat.eqb_refl.
     + intro k0. unfold holdsb. cbn [b_cmd b_pc with_bpc]. rewrite Hc, Hp. cbv beta iota. intro E. apply orb_prop in E. destruct E as [E|E].
       * now left.
-      * apply Nat.eqb_eq in E. subst. now right.
+      * apply Nat.eqb_eq in E. subst. unfold holdsb in Hf'. rewrite Hc, Hp in Hf'. exact Hf'.
   - (* move: notify + release *)
     inversion Hs; subst s'; clear Hs.
     eapply (L_step s _ t x); [exact HL|exact Hx|reflexivity| |].
@@ -500,7 +503,7 @@ Proof.
     + eapply (E_step s _ t x); [exact Hx|reflexivity| |not_block Hc].
       eapply (E_others s _ t x); [exact HE|exact Hx|reflexivity|same_tok|same_lists|not_notifying Hc Hp].
   - (* move: destination *)
-    destruct (lock_is_free b s); [|discriminate]. inversion Hs; subst s'; clear Hs.
+    destruct (lock_avail b t s); [|discriminate]. inversion Hs; subst s'; clear Hs.
     eapply (E_step s _ t x); [exact Hx|reflexivity| |not_block Hc].
     eapply (E_others s _ t x); [exact HE|exact Hx|reflexivity|same_tok| |not_notifying Hc Hp].
     intros k0 H. cbn [lists set_bth set_klock set_lists]. destruct (Nat.eq_dec k0 b) as [->|Hk].
